@@ -207,9 +207,92 @@ def no_ambient(res, prog):
                 for s in f.blocks[b]['s']:
                     if s['k'] == 'assign' and s['rv']['k'] == 'cast' and s['rv']['ck'] in ('PointerExposeProvenance',):
                         res.rule('C13.4', 1)
-                        if f.path != 'breakpad_symbols::sym_file::walker::parse_cfi_exprs':
-                            res.violation('C13.4', 'C13.4|ptr2int|%s' % f.qual, f, s.get('line'), 'pointer-to-integer cast (address-dependent value)')
-                        # parse_cfi_exprs only subtracts two addresses inside one string: offsets, address-independent
+                        bad = ptr2int_escapes(f)
+                        if bad:
+                            res.violation('C13.4', 'C13.4|ptr2int|%s' % f.qual, f, bad[0][0] or s.get('line'), 'an address obtained by a pointer-to-integer cast is used other than in a difference of two addresses (%s)' % bad[0][1])
+                        # a difference of two addresses inside one allocation is an offset: address-independent
+
+
+def ptr2int_escapes(f):
+    """Addresses (results of pointer-to-integer casts, and sums of an address and a length) may only meet in a
+    subtraction of one address from another - an offset, which does not depend on where the allocator put the data.
+    Returns [(line, what)] for every other use of such a value."""
+    def places_of(node, out):
+        if isinstance(node, dict):
+            if isinstance(node.get('l'), int) and set(node) <= {'l', 'p'}:
+                out.append(node)
+                return
+            for v in node.values():
+                places_of(v, out)
+        elif isinstance(node, list):
+            for v in node:
+                places_of(v, out)
+    taint = set()
+    changed = True
+    bad = []
+    for _ in range(6):
+        changed = False
+        for b in sorted(f.reach):
+            for st in f.blocks[b]['s']:
+                if st['k'] != 'assign' or st['lhs'].get('p'):
+                    continue
+                rv = st['rv']
+                dst = st['lhs']['l']
+                if rv['k'] == 'cast' and rv.get('ck') == 'PointerExposeProvenance':
+                    if dst not in taint:
+                        taint.add(dst); changed = True
+                    continue
+                ps = []
+                places_of(rv, ps)
+                reads = [p['l'] for p in ps if p['l'] in taint]
+                if not reads:
+                    continue
+                if rv['k'] == 'bin' and rv['op'] in ('Sub', 'SubWithOverflow', 'SubUnchecked'):
+                    lp, rp = [], []
+                    places_of(rv['l'], lp); places_of(rv['r'], rp)
+                    if any(p['l'] in taint for p in lp) and any(p['l'] in taint for p in rp):
+                        continue        # address - address: an offset, clean
+                if (rv['k'] == 'bin' and rv['op'] in ('Add', 'AddWithOverflow', 'AddUnchecked', 'Sub', 'SubWithOverflow')) or rv['k'] == 'use':
+                    # address +/- length, a move / copy, or the value half of a checked operation: still an address
+                    p = (rv['x'].get('m') or rv['x'].get('c')) if rv['k'] == 'use' else None
+                    if p is not None and p.get('p') and any(isinstance(e, dict) and e.get('f') == 1 for e in p['p']):
+                        continue        # the overflow flag of a checked operation
+                    if dst not in taint:
+                        taint.add(dst); changed = True
+                    continue
+                if rv['k'] in ('un',) and False:
+                    continue
+        if not changed:
+            break
+    for b in sorted(f.reach):
+        for st in f.blocks[b]['s']:
+            if st['k'] != 'assign':
+                continue
+            rv = st['rv']
+            ps = []
+            places_of(rv, ps)
+            if not any(p['l'] in taint for p in ps):
+                continue
+            dst = st['lhs']['l']
+            if not st['lhs'].get('p') and (dst in taint or (rv['k'] == 'bin' and rv['op'] in ('Sub', 'SubWithOverflow', 'SubUnchecked'))):
+                continue
+            if rv['k'] == 'use':
+                p = rv['x'].get('m') or rv['x'].get('c')
+                if p is not None and p.get('p') and any(isinstance(e, dict) and e.get('f') == 1 for e in p['p']):
+                    continue
+            if rv['k'] == 'un' and rv.get('op') == 'Not' and (f.local_ty(dst) or '') == 'bool':
+                continue   # `!overflowed` feeding the overflow assert
+            bad.append((st.get('line'), 'stored / transformed by %s' % rv['k']))
+        t = f.blocks[b]['t']
+        if t['k'] == 'assert':
+            continue
+        ps = []
+        places_of({k: v for k, v in t.items() if k != 'dest'}, ps)
+        if any(p['l'] in taint for p in ps):
+            bad.append((t.get('line'), 'handed to %s' % (t.get('fn') or t['k'])))
+    if 0 in taint:
+        bad.append((f.line, 'returned'))
+    return bad
 
 ACCESSOR = re.compile(r'^minidump_common::traits::Module::(\w+)$')
 
